@@ -1,6 +1,43 @@
+import Driver.C01
+import Driver.C02
+import Driver.C03
+import Driver.C04
+import Driver.C05
+import Driver.C06
+import Driver.C07
+import Driver.C08
+import Driver.C09
+import Driver.C10
+import Driver.C11
+import Driver.C12
+import Driver.C13
+import Driver.C14
+import Driver.C15
+import Driver.C16
+import Driver.C17
 import Driver.C18
+import Driver.C19
 
+/-- `sqfsmodel <cNN> [args]`: dispatch to the per-property line-protocol driver (`Driver/CNN.lean`). -/
 def main (args : List String) : IO UInt32 := do
   match args with
+  | "c01" :: r => Driver.C01.run r; return 0
+  | "c02" :: r => Driver.C02.run r; return 0
+  | "c03" :: r => Driver.C03.run r; return 0
+  | "c04" :: r => Driver.C04.run r; return 0
+  | "c05" :: r => Driver.C05.run r; return 0
+  | "c06" :: r => Driver.C06.run r; return 0
+  | "c07" :: r => Driver.C07.run r; return 0
+  | "c08" :: r => Driver.C08.run r; return 0
+  | "c09" :: r => Driver.C09.run r; return 0
+  | "c10" :: r => Driver.C10.run r; return 0
+  | "c11" :: r => Driver.C11.run r; return 0
+  | "c12" :: r => Driver.C12.run r; return 0
+  | "c13" :: r => Driver.C13.run r; return 0
+  | "c14" :: r => Driver.C14.run r; return 0
+  | "c15" :: r => Driver.C15.run r; return 0
+  | "c16" :: r => Driver.C16.run r; return 0
+  | "c17" :: r => Driver.C17.run r; return 0
   | "c18" :: r => Driver.C18.run r; return 0
-  | _ => IO.eprintln "usage: sqfsmodel <model> [args]"; return 2
+  | "c19" :: r => Driver.C19.run r; return 0
+  | _ => IO.eprintln "usage: sqfsmodel <c01..c19> [args]"; return 2
